@@ -489,7 +489,7 @@ fn lstat_ino(path: &str) -> (u64, u32) {
 fn fstat_info(fd: i32) -> (u64, bool) {
     let mut st: libc::stat = unsafe { std::mem::zeroed() };
     let e = errno();
-    let r = unsafe { libc::fstat(fd, &mut st) };
+    let r = unsafe { real!("fstat", unsafe extern "C" fn(c_int, *mut libc::stat) -> c_int)(fd, &mut st) };
     set_errno(e);
     if r == 0 {
         (st.st_ino, (st.st_mode & libc::S_IFMT) == libc::S_IFDIR)
@@ -524,7 +524,7 @@ fn capture_listing(path: &str) -> Vec<ListEnt> {
                 }
                 let mut st: libc::stat = std::mem::zeroed();
                 let cn = std::ffi::CString::new(name.clone()).unwrap();
-                if libc::fstatat(fd, cn.as_ptr(), &mut st, libc::AT_SYMLINK_NOFOLLOW) == 0 {
+                if real!("fstatat", unsafe extern "C" fn(c_int, *const c_char, *mut libc::stat, c_int) -> c_int)(fd, cn.as_ptr(), &mut st, libc::AT_SYMLINK_NOFOLLOW) == 0 {
                     out.push(ListEnt {
                         name,
                         is_dir: (st.st_mode & libc::S_IFMT) == libc::S_IFDIR,
@@ -880,7 +880,7 @@ fn apply_atime_policy(w: &World, fd: c_int) {
         return;
     }
     let mut st: libc::stat = unsafe { std::mem::zeroed() };
-    if unsafe { libc::fstat(fd, &mut st) } != 0 {
+    if unsafe { real!("fstat", unsafe extern "C" fn(c_int, *mut libc::stat) -> c_int)(fd, &mut st) } != 0 {
         return;
     }
     let at = ts_ns(st.st_atime, st.st_atime_nsec);
@@ -1297,6 +1297,92 @@ pub unsafe extern "C" fn statx(dirfd: c_int, p: *const c_char, flags: c_int, mas
     }
 }
 
+/// Truncates the times of a `struct stat` to the emulated timestamp granularity (as `statx` above).
+unsafe fn emu_stat_times(w: &World, buf: *mut libc::stat) {
+    if let Some(emu) = w.emu {
+        if emu.gran_ns > 1 {
+            let a = to_ts(trunc(ts_ns((*buf).st_atime, (*buf).st_atime_nsec), emu.gran_ns));
+            (*buf).st_atime = a.tv_sec;
+            (*buf).st_atime_nsec = a.tv_nsec;
+            let m = to_ts(trunc(ts_ns((*buf).st_mtime, (*buf).st_mtime_nsec), emu.gran_ns));
+            (*buf).st_mtime = m.tv_sec;
+            (*buf).st_mtime_nsec = m.tv_nsec;
+        }
+    }
+}
+
+macro_rules! fstatat_call {
+    ($name:ident, $sym:literal) => {
+        /// The pre-statx metadata call (a library that calls libc directly may use it); traced as "stat".
+        #[no_mangle]
+        pub unsafe extern "C" fn $name(dirfd: c_int, p: *const c_char, buf: *mut libc::stat, flags: c_int) -> c_int {
+            let real = real!($sym, unsafe extern "C" fn(c_int, *const c_char, *mut libc::stat, c_int) -> c_int);
+            let rel = cs(p);
+            match prologue(|w| {
+                let by_fd = rel.is_empty();
+                let path = resolve_at(w, dirfd, &rel)?;
+                if !w.relevant_path(&path) {
+                    return None;
+                }
+                let mut d = Desc::new(if by_fd { "fstat" } else { "stat" }, if by_fd { Class::Meta } else { Class::Path });
+                if by_fd {
+                    d.fd = dirfd;
+                }
+                d.path = path;
+                d.arg = flags as i64;
+                Some(d)
+            }) {
+                Outcome::Pass => real(dirfd, p, buf, flags),
+                Outcome::Fail(w, d, idx, e) => {
+                    epilogue(&w, d, idx, -1, e, true, None);
+                    -1
+                }
+                Outcome::Go(w, mut d, idx) => {
+                    let r = real(dirfd, p, buf, flags);
+                    let e = errno();
+                    if r == 0 && !buf.is_null() {
+                        d.ino = (*buf).st_ino;
+                        emu_stat_times(&w, buf);
+                    }
+                    epilogue(&w, d, idx, r as i64, e, false, None);
+                    r
+                }
+            }
+        }
+    };
+}
+
+fstatat_call!(fstatat, "fstatat");
+fstatat_call!(fstatat64, "fstatat64");
+
+macro_rules! fstat_call {
+    ($name:ident, $sym:literal) => {
+        #[no_mangle]
+        pub unsafe extern "C" fn $name(fd: c_int, buf: *mut libc::stat) -> c_int {
+            let real = real!($sym, unsafe extern "C" fn(c_int, *mut libc::stat) -> c_int);
+            match prologue(|w| fd_desc(w, fd, "fstat", Class::Meta)) {
+                Outcome::Pass => real(fd, buf),
+                Outcome::Fail(w, d, idx, e) => {
+                    epilogue(&w, d, idx, -1, e, true, None);
+                    -1
+                }
+                Outcome::Go(w, d, idx) => {
+                    let r = real(fd, buf);
+                    let e = errno();
+                    if r == 0 && !buf.is_null() {
+                        emu_stat_times(&w, buf);
+                    }
+                    epilogue(&w, d, idx, r as i64, e, false, None);
+                    r
+                }
+            }
+        }
+    };
+}
+
+fstat_call!(fstat, "fstat");
+fstat_call!(fstat64, "fstat64");
+
 macro_rules! path_mode_call {
     ($name:ident, $sym:literal, $call:literal) => {
         #[no_mangle]
@@ -1662,6 +1748,13 @@ pub unsafe extern "C" fn readdir64(dir: *mut libc::DIR) -> *mut libc::dirent64 {
     }
 }
 
+/// `readdir` proper (what the libc crate binds): on this target `struct dirent` and
+/// `struct dirent64` have the same layout, so it shares the traced implementation.
+#[no_mangle]
+pub unsafe extern "C" fn readdir(dir: *mut libc::DIR) -> *mut libc::dirent {
+    readdir64(dir) as *mut libc::dirent
+}
+
 #[no_mangle]
 pub unsafe extern "C" fn closedir(dir: *mut libc::DIR) -> c_int {
     let real = real!("closedir", unsafe extern "C" fn(*mut libc::DIR) -> c_int);
@@ -1712,7 +1805,7 @@ pub const INTERPOSED: &[&str] = &[
     "open64", "open", "openat64", "openat", "close", "read", "write", "lseek64", "lseek", "ftruncate64", "ftruncate",
     "copy_file_range", "renameat2", "fsync", "fdatasync", "fchmod", "flock", "lockf", "fcntl", "fcntl64", "futimens", "utimensat",
     "statx", "chmod", "mkdir", "fchmodat", "unlink", "rmdir", "unlinkat", "rename", "renameat", "linkat", "link",
-    "symlink", "opendir", "readdir64", "closedir", "clock_gettime", "sendfile64", "splice", "writev",
+    "symlink", "opendir", "readdir64", "readdir", "closedir", "fstatat", "fstatat64", "fstat", "fstat64", "clock_gettime", "sendfile64", "splice", "writev",
 ];
 
 /// Registers a descriptor that was opened while the shim was bypassed, so that later calls on it
